@@ -33,7 +33,7 @@ func opName(op string) string {
 		return "NewEventFromHeaderedJSON"
 	case "SU1", "SU2":
 		return "SetUnsigned"
-	case "SF":
+	case "SF", "SFs", "SFe", "SFl":
 		return "SetUnsignedField"
 	case "AS1", "AS2":
 		return "Sign"
@@ -124,7 +124,7 @@ func compareFields(want, got *fields, withContent bool) (string, interface{}, in
 		return "auth_events", want.Auth, got.Auth
 	}
 	if withContent {
-		if !sameJSONBytes(want.Content, got.Content) {
+		if !sameJSONBytes(want.Content, got.Content) && !sameMembers(want.Content, got.Content) {
 			return "content", string(want.Content), string(got.Content)
 		}
 		if want.Redacts != got.Redacts {
@@ -273,7 +273,22 @@ func replayC03(i int, raw json.RawMessage, seed int64) hx.Result {
 	if res := runC03(&r, seed, i); res != nil {
 		res.NT = nt
 		blameSpelling(&r, seed, i, res)
-		if r.Refuse && r.Proto.Lim != "" && r.Proto.Lim != "none" {
+		if r.MayRefuse {
+			// the dimension of the scenario: a member name repeated below the top level
+			where := map[string]string{"rep-content": "content", "rep-nested": "content-value", "rep-deeper": "content-value-deeper",
+				"rep-array": "content-array-element"}[r.Proto.Num]
+			if where == "" {
+				where = "unsigned"
+			}
+			res.Key += "/member-named-twice-in=" + where
+			res.What = fmt.Sprintf("the proto-event's %s names a member twice below the top level (ambiguous but well-formed JSON that Build signed and handed out): %s",
+				map[bool]string{true: "unsigned section " + string(protoOf(r.Ver, &r.Proto, seed).pe.Unsigned), false: "content " + string(contentOf(r.Ver, &r.Proto, seed))}[where == "unsigned"], res.What)
+		}
+		if r.Refuse && highDepth(r.Proto.Depth) {
+			res.Key = "C03/build-or-refuse/depth=" + r.Proto.Depth + "/" + strings.TrimPrefix(res.Key, "C03/")
+			res.What = fmt.Sprintf("the proto-event's depth (%s) is beyond 2^53 - 1, the largest integer of canonical JSON, so it is not an event of room version %s and Build must refuse it: %s",
+				depthText(r.Proto.Depth), r.Ver, res.What)
+		} else if r.Refuse && r.Proto.Lim != "" && r.Proto.Lim != "none" {
 			res.Key = "C03/build-or-refuse/len=" + r.Proto.Lim + "/" + strings.TrimPrefix(res.Key, "C03/")
 			res.What = fmt.Sprintf("the proto-event's field %s is over the 255 limit, so it is not an event of room version %s: %s", r.Proto.Lim, r.Ver, res.What)
 		} else if r.Refuse {
@@ -330,6 +345,12 @@ func blameSpelling(r *rec, seed int64, idx int, res *hx.Result) {
 		"under the plainly spelt identity (%s, %s) passes: %s", example, s0.name, s0.key, res.What)
 }
 
+func highDepth(tok string) bool { return tok == "d4" || tok == "d5" || tok == "d6" || tok == "d7" }
+
+func depthText(tok string) string {
+	return map[string]string{"d3": "2^53-1", "d4": "2^53", "d5": "2^53+1", "d6": "2^63-2", "d7": "2^63-1"}[tok]
+}
+
 func ntOf(r *rec) string {
 	var ops, reds []string
 	for _, s := range r.Steps {
@@ -352,6 +373,15 @@ func ntOf(r *rec) string {
 	}
 	if r.Fam == "sid" {
 		dl += "|signer:" + r.Proto.spelling().String()
+	}
+	if highDepth(r.Proto.Depth) || (r.Proto2 != nil && highDepth(r.Proto2.Depth)) {
+		dl += fmt.Sprintf("|depth=%s|refuse=%v", r.Proto.Depth, r.Refuse)
+	}
+	if r.Proto.Unsigned == "urep" {
+		dl += "|unsigned=rep"
+	}
+	if r.Fam == "alias" {
+		dl += fmt.Sprintf("|alias:%s/%s/cold=%v/unsigned=%s", r.Who, r.O, r.Cold, r.Proto.Unsigned)
 	}
 	return fmt.Sprintf("%s|fmt%d|algo%d%s|%s|%s|%s|%s|%v", r.Fam, r.IDFmt, algoOf(r.Ver), dl, r.Proto.Type, strings.Join(ops, ","),
 		strings.Join(reds, ""), r.F, r.Same)
@@ -472,6 +502,10 @@ func runC03(r *rec, seed int64, idx int) *hx.Result {
 	}
 	b := protoOf(r.Ver, &r.Proto, seed)
 	p, err := b.build(r.Ver)
+	if err != nil && r.MayRefuse && !r.Refuse {
+		// an ambiguous text (a member name repeated below the top level): a Build that refuses it hands out nothing
+		return nil
+	}
 	if err != nil && r.Refuse {
 		// Build either refuses (no event: nothing to hold) or hands out an event that satisfies every clause.
 		// Build may hand the event over next to the error of its field check: then the field check and the untrusted
@@ -565,6 +599,9 @@ func runC03(r *rec, seed int64, idx int) *hx.Result {
 				return fail("C03/id/pattern/"+opName(s.Op), "equality pattern of event IDs differs from the identity tokens'", classes, ids)
 			}
 		}
+	}
+	if r.Fam == "alias" {
+		return runAlias(r, impl, &b, p, idx)
 	}
 	if res := unobserved(r, impl, &b, &base, idx); res != nil {
 		return res
